@@ -483,3 +483,35 @@ func (i *interpreter) stringsSplitN(sv, sepv value, n int) value {
 	out = append(out, mkStr(b[start:]))
 	return out
 }
+
+func init() {
+	reg("(*regexp.Regexp).LiteralPrefix", func(i *interpreter, fr *frame, args []value) value {
+		m, ok := args[0].(*regexModel)
+		if !ok || m == nil {
+			panic("runtime error: invalid memory address or nil pointer dereference")
+		}
+		if m.re == nil {
+			unsupportedf("LiteralPrefix of a symbolic pattern")
+		}
+		p, c := m.re.LiteralPrefix()
+		return tuple{p, c}
+	})
+	reg("(*regexp.Regexp).String", func(i *interpreter, fr *frame, args []value) value {
+		m := args[0].(*regexModel)
+		return m.src
+	})
+	reg("regexp.MatchString", func(i *interpreter, fr *frame, args []value) value {
+		m, err := i.compileRegex(args[0])
+		if err.(iface).t != nil {
+			return tuple{false, err}
+		}
+		return tuple{i.regexMatch(m.(*regexModel), args[1]), iface{}}
+	})
+	reg("regexp.QuoteMeta", func(i *interpreter, fr *frame, args []value) value {
+		s, ok := args[0].(string)
+		if !ok {
+			unsupportedf("QuoteMeta of a symbolic string")
+		}
+		return regexp.QuoteMeta(s)
+	})
+}
